@@ -480,6 +480,9 @@ impl Check for C13 {
             "total_late counts every late event ever offered to the handler; draining the side output (clear_side_output) empties the buffer and stats().side_output but not total_late".into(),
         ]
     }
+    fn devopt_scale(&self) -> Option<f64> {
+        Some(0.1)
+    }
     fn explore(&self, cli: &Cli, st: &mut Stats) {
         let len = cli.tier.pick(5usize, 8usize);
         let wms: Vec<Wm> = (0..=4).map(Wm::Bounded).chain([Wm::Monotonic]).collect();
